@@ -276,7 +276,7 @@ class DescendingTree:
         return numpy.sort(hits)[::-1]
 
 
-def body_points(ctx, conv, nreq, policy, api, dimname, boundary=False, bounds_coords=False):
+def body_points(ctx, conv, nreq, policy, api, dimname, boundary=False, bounds_coords=False, relabel=False):
     ds, cv, info = make(ctx, conv, bounds_coords)
     polygons = cv.polygons
     N = len(polygons)
@@ -342,6 +342,10 @@ def body_points(ctx, conv, nreq, policy, api, dimname, boundary=False, bounds_co
     # extract_dataframe
     df = pandas.DataFrame({'lon': [c[0] for c in coords], 'lat': [c[1] for c in coords],
                            'tag': [f'row{k}' for k in range(nreq)]})
+    if relabel:
+        # a table whose index is not 0..n-1 (rows picked out of a larger table): requests are still answered row by
+        # row, in row order, and numbered by row number
+        df.index = [7, 3, 5, 1][:nreq]
     try:
         out = point_extraction.extract_dataframe(ds, df, ('lon', 'lat'), point_dimension=dim, missing_points=policy)
     except point_extraction.NonIntersectingPoints as e:
@@ -426,6 +430,10 @@ def cases(tier):
         yield Case(f'points:{conv}:extract_dataframe:fill:boundary', body_points,
                    dict(conv=conv, nreq=2 if q else 3, policy='fill', api='extract_dataframe', dimname=None, boundary=True),
                    max_paths=100000, split=32)
+        if conv in ('cf1d', 'ugrid'):
+            for policy in ('drop', 'fill'):
+                yield Case(f'points:{conv}:extract_dataframe:{policy}:2:relabelled-table', body_points,
+                           dict(conv=conv, nreq=2, policy=policy, api='extract_dataframe', dimname=None, relabel=True), max_paths=50000, split=16)
         yield Case(f'points:{conv}:extract_dataframe:fill:custom', body_points,
                    dict(conv=conv, nreq=2, policy='fill', api='extract_dataframe', dimname='station'), max_paths=50000, split=8)
 
